@@ -560,12 +560,12 @@ func init() {
 		}
 		// stress shapes: deep nesting with inflated counts, very many tiny parts, and short hex strings for every scanner
 		wkbAll := map[string]func([]byte) error{
-			"wkb.Unmarshal":  func(b []byte) error { _, err := wkb.Unmarshal(b); return err },
-			"ewkb.Unmarshal": func(b []byte) error { _, _, err := ewkb.Unmarshal(b); return err },
-			"wkb.Decoder":    func(b []byte) error { _, err := wkb.NewDecoder(bytes.NewReader(b)).Decode(); return err },
-			"ewkb.Decoder":   func(b []byte) error { _, _, err := ewkb.NewDecoder(bytes.NewReader(b)).Decode(); return err },
-			"wkb.Scanner":    func(b []byte) error { return wkb.Scanner(nil).Scan(b) },
-			"ewkb.Scanner":   func(b []byte) error { return ewkb.Scanner(nil).Scan(b) },
+			"wkb.Unmarshal":          func(b []byte) error { _, err := wkb.Unmarshal(b); return err },
+			"ewkb.Unmarshal":         func(b []byte) error { _, _, err := ewkb.Unmarshal(b); return err },
+			"wkb.Decoder":            func(b []byte) error { _, err := wkb.NewDecoder(bytes.NewReader(b)).Decode(); return err },
+			"ewkb.Decoder":           func(b []byte) error { _, _, err := ewkb.NewDecoder(bytes.NewReader(b)).Decode(); return err },
+			"wkb.Scanner":            func(b []byte) error { return wkb.Scanner(nil).Scan(b) },
+			"ewkb.Scanner":           func(b []byte) error { return ewkb.Scanner(nil).Scan(b) },
 			"ewkb.ScannerPrefixSRID": func(b []byte) error { return ewkb.ScannerPrefixSRID(nil).Scan(b) },
 			"ewkb.ScannerPrefixSRID(*Point)": func(b []byte) error {
 				var p orb.Point
